@@ -217,6 +217,14 @@ TIES = {
                                 "generic_serialize", "generic_drivers"],
                       "theorems": ["source_is_triples_sink_is_model", "source_stream_frames_is_model", "source_guess_options_is_model",
                                    "source_guess_stream_is_model", "source_grouped_stream_to_frames_is_model"]},
+    # the generator alternative of the drivers' `data` union (the _gen copies), stream_frames on it, and flat_stream_to_frames
+    "generic_gen": {"sources": ["pyjelly/integrations/generic/serialize.py", "pyjelly/integrations/generic/generic_sink.py",
+                                "pyjelly/serialize/streams.py"],
+                    "unit": "generic_serialize", "gen": "GenericSerializeGen", "tie": "GenericGenTie",
+                    "needs": ["lookup_enc", "lookup_dec", "options", "encode", "encode_stmt", "flows", "streams", "decode", "decoder_base", "stmt_layout", "generic_sink",
+                              "generic_serialize", "generic_drivers", "generic_entry"],
+                    "theorems": ["source_triples_stream_frames_gen_is_model", "source_quads_stream_frames_gen_is_model", "source_graphs_stream_frames_gen_is_model",
+                                 "source_stream_frames_gen_is_model", "source_flat_stream_to_frames_is_model"]},
     # C01 / C14 end to end on translated source: the translated driver's yields through the translated flat parser give back the
     # objects of the declarations and statements (no model in the conclusion)
     "generic_end_to_end": {"sources": ["pyjelly/integrations/generic/serialize.py", "pyjelly/integrations/generic/parse.py",
@@ -426,6 +434,9 @@ def _tx_check(ctx, repo: str, n: int, reader: bool, writer: bool, rdf: bool = Fa
             gcases, gstats = txcheck.gen_grouped_writer_cases(_C, n)
             cases += gcases
             stats["grouped_writer"] = gstats
+            fcases, fstats = txcheck.gen_flat_writer_cases(_C, n)
+            cases += fcases
+            stats["flat_writer"] = fstats
         os.mkdir(f"{tmpd}/cases")
         (Path(tmpd) / "cases" / "TxCases.v").write_text(txcheck.coq_file(cases))
         rc, out = sh(f"cd {VERIF}/coq && timeout 1500 coqc {q} -Q {tmpd}/cases PJ.Tx {tmpd}/cases/TxCases.v", timeout=1600)
@@ -504,6 +515,7 @@ def source_ties(ctx, po: dict, pid: str) -> list[str]:
             dr = tx_stats.get("drivers")
             rd = tx_stats.get("rdflib")
             gw = tx_stats.get("grouped_writer")
+            fw = tx_stats.get("flat_writer")
             ctx.report.notes.append("translation cross-check: the generated Gallina, evaluated by vm_compute, against the real code of this tree"
                                     + (f"; reader chain (options_from_frame, parse_jelly_flat with the generic adapters and Decoder.iter_rows): same yields and same exception classes on "
                                        f"{tx_stats.get('valid', 0)} streams of the reference encoder as they are and {tx_stats.get('mutated', 0)} with one mutation "
@@ -519,6 +531,9 @@ def source_ties(ctx, po: dict, pid: str) -> list[str]:
                                     + (f"; grouped_stream_to_frames over lists of sinks with guess_options / guess_stream / the singledispatch stream_frames: same frames and exception "
                                        f"classes on {gw['streams']} runs ({gw['sinks']} sinks, options guessed in {gw['options_guessed']}; {gw['frames']} frames; exceptions compared: {gw['exceptions']})"
                                        if gw else "")
+                                    + (f"; flat_stream_to_frames over generators of statements (the generator alternative of the drivers, stream_frames on it): same frames and exception classes on "
+                                       f"{fw['streams']} runs ({fw['empty']} empty, options guessed in {fw['options_guessed']}; {fw['frames']} frames; exceptions compared: {fw['exceptions']})"
+                                       if fw else "")
                                     + (f"; rdflib: the unit's specification of rdflib's term objects against the real ones (isinstance, str, ==: {rd['object_pairs']} pairs, "
                                        f"{rd['equal_pairs']} equal, {rd['case_only_pairs']} literals that differ in the case of the language tag only) and RDFLibTermEncoder under "
                                        f"TripleStream / QuadStream: same frames and exception classes on {rd['streams']} statement lists ({rd['frames']} frames; exceptions compared: {rd['exceptions']})"
